@@ -124,6 +124,15 @@ fn test_span(c: &SpanCase, cx: &mut Cx) -> CaseResult {
     );
     ensure!(span.to_string() == temporal::SpanPrinter::new().span_to_string(&span), "iso-display", "Display differs from the default ISO printer");
     ensure!(span.to_string().parse::<Span>().map(|x| SpanSpec::from_span(&x).u[..6] == c.span.u[..6]).unwrap_or(false), "iso-fromstr", "FromStr of Display output failed for {span:?}");
+    // serde: the ISO form as a string, deserialising (from text and bytes) to the same fields
+    {
+        let json = serde_json::to_string(&span).map_err(|e| Failure::new("serde-serialize-err", format!("{span:?}: {e}")))?;
+        ensure!(json == format!("\"{}\"", span.to_string()), "serde-differs-from-display", "{span:?} serialises as {json}");
+        let b: Span = serde_json::from_str(&json).map_err(|e| Failure::new("serde-deserialize-err", format!("{json}: {e}")))?;
+        let b2: Span = serde_json::from_slice(json.as_bytes()).map_err(|e| Failure::new("serde-deserialize-err", format!("{json} (bytes): {e}")))?;
+        let want: Span = span.to_string().parse().map_err(|e| Failure::new("iso-fromstr", format!("{e}")))?;
+        ensure!(b.fieldwise() == want.fieldwise() && b2.fieldwise() == want.fieldwise(), "serde-roundtrip", "{span:?} -> {json} -> {b:?} / {b2:?}, FromStr gives {want:?}");
+    }
     // ---- friendly, default `{:#}`
     let alt = format!("{span:#}");
     let p = alt.parse::<Span>().map_err(|e| Failure::new("friendly-default-reparse-err", format!("{span:?} -> {alt:?}: {e}")))?;
@@ -132,6 +141,23 @@ fn test_span(c: &SpanCase, cx: &mut Cx) -> CaseResult {
     let printer = c.cfg.printer();
     let text = printer.span_to_string(&span);
     let ctx = format!("{span:?} cfg={:?} -> {text:?}", c.cfg);
+    // the same text through the Write-based entry points and every writer adapter (a sink
+    // that takes a few bytes per call included): what arrives must be what parses back
+    {
+        use jiff::fmt::{StdFmtWrite, StdIoWrite};
+        let chunk = 1 + (c.span.u[9] as usize + nz) % 5;
+        let mut a = String::new();
+        let mut b: Vec<u8> = vec![];
+        let mut t = StdIoWrite(gen::Trickle::new(chunk));
+        let mut f = StdFmtWrite(String::new());
+        let ok = printer.print_span(&span, &mut a).is_ok() && printer.print_span(&span, &mut b).is_ok() && printer.print_span(&span, &mut t).is_ok() && printer.print_span(&span, &mut f).is_ok();
+        ensure!(ok && a == text && b == text.as_bytes() && t.0.buf == text.as_bytes() && f.0 == text, "friendly-print-routes-differ", "{ctx}: print_span wrote {a:?} / {:?} / {:?} (sink taking {chunk} bytes per call) / {:?}", String::from_utf8_lossy(&b), t.0.text(), f.0);
+        let ip = temporal::SpanPrinter::new().lowercase(c.lower);
+        let mut a = String::new();
+        let mut t = StdIoWrite(gen::Trickle::new(chunk));
+        let ok = ip.print_span(&span, &mut a).is_ok() && ip.print_span(&span, &mut t).is_ok();
+        ensure!(ok && a == iso && t.0.buf == iso.as_bytes(), "iso-print-routes-differ", "{span:?}: print_span wrote {a:?} / {:?} (sink taking {chunk} bytes per call), span_to_string {iso:?}", t.0.text());
+    }
     let parsed = friendly::SpanParser::new().parse_span(&text);
     let p = match parsed {
         Ok(p) => p,
@@ -187,7 +213,9 @@ struct DurCase {
 }
 
 fn test_duration(c: &DurCase, cx: &mut Cx) -> CaseResult {
-    let nanos = if c.secs < 0 { -c.nanos.abs() } else { c.nanos.abs() };
+    // (with zero seconds the sign lives in the nanoseconds alone: the case's own sign is kept)
+    let nanos = if c.secs < 0 { -c.nanos.abs() } else if c.secs > 0 { c.nanos.abs() } else { c.nanos };
+    cx.class_if(c.secs == 0 && nanos < 0, "negative-sub-second");
     let d = SignedDuration::new(c.secs, nanos);
     let dn = d.as_nanos();
     let limitv = c.secs == i64::MIN || c.secs == i64::MAX || c.secs == i64::MIN + 1;
@@ -201,6 +229,13 @@ fn test_duration(c: &DurCase, cx: &mut Cx) -> CaseResult {
     let p = temporal::SpanParser::new().parse_duration(&iso).map_err(|e| Failure::new(format!("iso-duration-reparse-err{tag}"), format!("{d:?} -> {iso:?}: {e}")))?;
     ensure!(p == d, format!("iso-duration-roundtrip{tag}"), "{d:?} -> {iso:?} -> {p:?}");
     ensure!(d.to_string().parse::<SignedDuration>().ok() == Some(d), format!("iso-duration-fromstr{tag}"), "Display/FromStr round trip failed for {d:?}: {}", d.to_string());
+    {
+        let json = serde_json::to_string(&d).map_err(|e| Failure::new(format!("serde-serialize-err{tag}"), format!("{d:?}: {e}")))?;
+        ensure!(json == format!("\"{}\"", d.to_string()), format!("serde-differs-from-display{tag}"), "{d:?} serialises as {json}");
+        let b: SignedDuration = serde_json::from_str(&json).map_err(|e| Failure::new(format!("serde-deserialize-err{tag}"), format!("{json}: {e}")))?;
+        let b2: SignedDuration = serde_json::from_slice(json.as_bytes()).map_err(|e| Failure::new(format!("serde-deserialize-err{tag}"), format!("{json} (bytes): {e}")))?;
+        ensure!(b == d && b2 == d, format!("serde-roundtrip{tag}"), "{d:?} -> {json} -> {b:?} / {b2:?}");
+    }
     // friendly default
     let alt = format!("{d:#}");
     match alt.parse::<SignedDuration>() {
@@ -210,6 +245,22 @@ fn test_duration(c: &DurCase, cx: &mut Cx) -> CaseResult {
     // configured
     let text = c.cfg.printer().duration_to_string(&d);
     let ctx = format!("{d:?} cfg={:?} -> {text:?}", c.cfg);
+    {
+        use jiff::fmt::{StdFmtWrite, StdIoWrite};
+        let printer = c.cfg.printer();
+        let chunk = 1 + (nanos.unsigned_abs() as usize) % 5;
+        let mut a = String::new();
+        let mut b: Vec<u8> = vec![];
+        let mut t = StdIoWrite(gen::Trickle::new(chunk));
+        let mut f = StdFmtWrite(String::new());
+        let ok = printer.print_duration(&d, &mut a).is_ok() && printer.print_duration(&d, &mut b).is_ok() && printer.print_duration(&d, &mut t).is_ok() && printer.print_duration(&d, &mut f).is_ok();
+        ensure!(ok && a == text && b == text.as_bytes() && t.0.buf == text.as_bytes() && f.0 == text, format!("friendly-print-routes-differ{tag}"), "{ctx}: print_duration wrote {a:?} / {:?} / {:?} (sink taking {chunk} bytes per call) / {:?}", String::from_utf8_lossy(&b), t.0.text(), f.0);
+        let ip = temporal::SpanPrinter::new().lowercase(c.lower);
+        let mut a = String::new();
+        let mut t = StdIoWrite(gen::Trickle::new(chunk));
+        let ok = ip.print_duration(&d, &mut a).is_ok() && ip.print_duration(&d, &mut t).is_ok();
+        ensure!(ok && a == iso && t.0.buf == iso.as_bytes(), format!("iso-print-routes-differ{tag}"), "{d:?}: print_duration wrote {a:?} / {:?} (sink taking {chunk} bytes per call), duration_to_string {iso:?}", t.0.text());
+    }
     let p = match friendly::SpanParser::new().parse_duration(&text) {
         Ok(p) => p,
         Err(e) => fail!(
@@ -240,8 +291,8 @@ fn test_duration(c: &DurCase, cx: &mut Cx) -> CaseResult {
 }
 
 fn strat_dur_case() -> BoxedStrategy<DurCase> {
-    let secs = prop_oneof![3 => gen::biased(i64::MIN, i64::MAX), 3 => gen::biased(-400_000, 400_000), 1 => Just(i64::MIN), 1 => Just(i64::MAX)];
-    let nanos = prop_oneof![Just(0i32), Just(1), Just(999_999_999), Just(500_000_000), Just(1_000_000), Just(123_456_789), 0i32..1_000_000_000];
+    let secs = prop_oneof![3 => gen::biased(i64::MIN, i64::MAX), 3 => gen::biased(-400_000, 400_000), 1 => Just(i64::MIN), 1 => Just(i64::MAX), 2 => Just(0i64)];
+    let nanos = prop_oneof![Just(0i32), Just(1), Just(999_999_999), Just(500_000_000), Just(1_000_000), Just(123_456_789), 0i32..1_000_000_000, Just(-1i32), Just(-999_999_999), Just(-500_000_000), -999_999_999i32..0];
     // For a SignedDuration the zero unit is restricted to hours and below:
     // the friendly parser documents that calendar units cannot be parsed
     // into a SignedDuration, so `zero_unit(Unit::Year)` is a configuration
@@ -274,6 +325,7 @@ pub fn property() -> Property {
             rec.floor("c15.span:non-default-config", "c15.span:cases", 0.30);
             rec.floor("c15.span:limit-value", "c15.span:cases", 0.10);
             rec.floor("c15.span:negative", "c15.span:cases", 0.20);
+            rec.floor("c15.duration:negative-sub-second", "c15.duration:cases", 0.02);
         },
     }
 }
